@@ -1029,11 +1029,11 @@ func creepFamily(budget time.Duration) mc.Family {
 		r, _ := new(big.Rat).SetString(sx)
 		starts = append(starts, r)
 	}
-	kinds := []string{"horizontal lines", "vertical lines", "horizontal moves", "curves with horizontal tangents"}
+	kinds := []string{"horizontal lines", "vertical lines", "horizontal moves", "curves with horizontal tangents", "horizontal lines whose own step is an integer plus the creep"}
 	n := len(lengths) * len(creeps) * len(starts) * len(kinds)
 	return mc.Family{
 		Name: "perpendicular-creep", Items: n, Budget: budget,
-		Rule: fmt.Sprintf("item = (path of %v segments) x (creep per segment in +-{9e-7, 5e-7, 1e-7, 3e-6, 1e-5, 1e-6}) x (fractional part of the start coordinate in {0, +-0.0046, 0.004, 0.5}) x %q: every segment advances by 1 along its axis and by the creep across it; encoder -> exact reconstruction and library decoder: every absolute coordinate within 1/214; non-trivial = all", lengths, kinds),
+		Rule: fmt.Sprintf("item = (path of %v segments) x (creep per segment in +-{9e-7, 5e-7, 1e-7, 3e-6, 1e-5, 1e-6}) x (fractional part of the start coordinate in {0, +-0.0046, 0.004, 0.5}) x %q: every segment advances by 1 along its axis and by the creep across it (last kind: by 1 + creep along it); encoder -> exact reconstruction and library decoder: every absolute coordinate within 1/214; non-trivial = all", lengths, kinds),
 		Body: func(c *mc.Ctx, item int) mc.Verdict {
 			ln := lengths[item%len(lengths)]
 			cr := creeps[(item/len(lengths))%len(creeps)]
@@ -1065,6 +1065,9 @@ func creepFamily(budget time.Duration) mc.Family {
 						x, y = p.advance(one, cr)
 						p.g.LineTo(x, y)
 					}
+				case 4:
+					x, y = p.advance(new(big.Rat).Add(one, cr), zero)
+					p.g.LineTo(x, y)
 				default:
 					x1, y1 := p.advance(one, zero)
 					x2, y2 := p.advance(one, cr)
@@ -1084,6 +1087,77 @@ func creepFamily(budget time.Duration) mc.Family {
 				return *v
 			}
 			out := mc.Pass("creep/"+errClass(res.maxErr)+shimNote(), true)
+			if c.Render() {
+				out.Render = what() + fmt.Sprintf(" max error %g", res.maxErr)
+			}
+			return out
+		},
+	}
+}
+
+// contoursFamily: many contours, each returning (exactly, or to within less than
+// any tolerance) to its starting point before the explicit closepath; closepath
+// does not move the current point of a Type 1 charstring, so the next moveto is
+// relative to where the last segment ended.  With a horizontal advance (hsbw)
+// and with a vertical one (sbw), outlines away from x = 0.
+func contoursFamily(budget time.Duration) mc.Family {
+	counts := []int{2, 3, 10, 100, 600}
+	var gaps, fracs []*big.Rat
+	for _, sx := range []string{"0", "9/1000", "-9/1000", "1/250", "1/100000"} {
+		r, _ := new(big.Rat).SetString(sx)
+		gaps = append(gaps, r)
+	}
+	for _, sx := range []string{"0", "23/5000", "-23/5000", "1/3", "1/250"} {
+		r, _ := new(big.Rat).SetString(sx)
+		fracs = append(fracs, r)
+	}
+	n := len(counts) * len(gaps) * len(fracs) * 2
+	return mc.Family{
+		Name: "closed-contours", Items: n, Budget: budget,
+		Rule: fmt.Sprintf("item = (number of contours in %v) x (distance between the last point of a contour and its start in {0, +-0.009, 0.004, 1e-5}) x (fractional part of every delta in {0, +-0.0046, 1/3, 0.004}) x {horizontal advance (hsbw), vertical advance (sbw)}; every contour is moveto, three lines, a line back to (almost) the start, closepath, and starts 50 units right of x = 0; encoder -> exact reconstruction and library decoder: every absolute coordinate within 1/214; non-trivial = all", counts),
+		Body: func(c *mc.Ctx, item int) mc.Verdict {
+			cnt := counts[item%len(counts)]
+			gap := gaps[(item/len(counts))%len(gaps)]
+			fr := fracs[(item/len(counts)/len(gaps))%len(fracs)]
+			vertical := item/len(counts)/len(gaps)/len(fracs) == 1
+			R := func(v int64) *big.Rat { return new(big.Rat).Add(big.NewRat(v, 1), fr) }
+			neg := func(r *big.Rat) *big.Rat { return new(big.Rat).Neg(r) }
+			p := newPath()
+			if vertical {
+				p.g.WidthX, p.g.WidthY = 0, -1000
+			}
+			x, y := p.advance(R(50), R(20))
+			p.g.MoveTo(x, y)
+			for i := 0; i < cnt; i++ {
+				dx1, dy1, dx2, dy2, dx3, dy3 := R(30), R(0), R(0), R(40), R(-20), R(5)
+				x, y = p.advance(dx1, dy1)
+				p.g.LineTo(x, y)
+				x, y = p.advance(dx2, dy2)
+				p.g.LineTo(x, y)
+				x, y = p.advance(dx3, dy3)
+				p.g.LineTo(x, y)
+				// back to the start, up to the gap
+				bx := new(big.Rat).Add(neg(new(big.Rat).Add(new(big.Rat).Add(dx1, dx2), dx3)), gap)
+				by := neg(new(big.Rat).Add(new(big.Rat).Add(dy1, dy2), dy3))
+				x, y = p.advance(bx, by)
+				p.g.LineTo(x, y)
+				p.g.ClosePath()
+				if i < cnt-1 {
+					x, y = p.advance(R(3), R(-2))
+					p.g.MoveTo(x, y)
+				}
+			}
+			what := func() string {
+				return fmt.Sprintf("%d closed contours, gap %s, fractional part %s, vertical advance %v", cnt, gap.RatString(), fr.RatString(), vertical)
+			}
+			res, v := checkPath(p, what)
+			c.Step()
+			if v != nil {
+				v.Key += ":contours"
+				v.Render = what()
+				return *v
+			}
+			out := mc.Pass("contours/"+errClass(res.maxErr)+shimNote(), true)
 			if c.Render() {
 				out.Render = what() + fmt.Sprintf(" max error %g", res.maxErr)
 			}
@@ -1321,6 +1395,7 @@ func main() {
 			fams = append(fams, curveFormsFamily(budget))
 			fams = append(fams, nearAxisFamily(budget))
 			fams = append(fams, creepFamily(budget))
+			fams = append(fams, contoursFamily(budget))
 			fams = append(fams, afterFailureFamily(budget))
 			fams = append(fams, mc.Family{
 				Name: "drift-long-paths", Items: numLetters * len(formats), Budget: budget,
